@@ -24,14 +24,46 @@ SumOver(S, F(_)) == LET RECURSIVE Go(_)
 (* fraction n/d of the total listed length (positions counted with         *)
 (* multiplicity, as in the library's encoding 7a).                         *)
 (***************************************************************************)
-ELen(r, e) ==
-  IF "elen" \notin DOMAIN r \/ r.elen = <<>> THEN 1
+EdgeLenOr(r, e, dflt) ==     \* the length attribute of user edge e, dflt when absent
+  IF "elen" \notin DOMAIN r \/ r.elen = <<>> THEN dflt
   ELSE LET I == {i \in 1..Len(r.edges) : r.edges[i][1] = e[1] /\ r.edges[i][2] = e[2]} IN
-       IF I = {} THEN 1
-       ELSE LET i == CHOOSE x \in I : TRUE IN IF r.elen[i] = -999999 THEN 1 ELSE r.elen[i]
+       IF I = {} THEN dflt
+       ELSE LET i == CHOOSE x \in I : TRUE IN IF r.elen[i] = -999999 THEN dflt ELSE r.elen[i]
+NodeLenOr(r, v, dflt) ==
+  IF "nlen" \notin DOMAIN r \/ r.nlen = <<>> THEN dflt
+  ELSE LET I == {i \in 1..Len(r.nodes) : r.nodes[i] = v} IN
+       IF I = {} THEN dflt
+       ELSE LET i == CHOOSE x \in I : TRUE IN IF r.nlen[i] = -999999 THEN dflt ELSE r.nlen[i]
+(* Node mode (flow models): lengths live on the nodes (absent = 1); in the   *)
+(* expansion the node edge of v carries v's length and a link edge carries   *)
+(* the user edge's own length attribute if it has one, else 0.               *)
+ELen(r, x) ==        \* x: an edge of the graph the model works on (EG: user edge, or expanded edge in node mode)
+  IF "mode" \in DOMAIN r /\ r.mode = "node"
+  THEN LET V == {v \in ToSet(r.nodes) : ExpandedNodeEdge(v) = x}
+           L == {e \in ToSet(r.edges) : ExpandedLinkEdge(e) = x} IN
+       IF V # {} THEN NodeLenOr(r, CHOOSE v \in V : TRUE, 1)
+       ELSE IF L # {} THEN EdgeLenOr(r, CHOOSE e \in L : TRUE, 0) ELSE 1
+  ELSE EdgeLenOr(r, x, 1)
 LenSum(r, c, J) == SumOver(J, LAMBDA j : ELen(r, c[j]))
 UsesLengthCoverage(r) == "covlen" \in DOMAIN r /\ r.covlen[1] > 0
 HonouredByLength(r, c, J) == LenSum(r, c, J) * r.covlen[2] >= LenSum(r, c, 1..Len(c)) * r.covlen[1]
+
+(* the same at user level (trace clauses): a constraint as a sequence of items <<"n", v>> / <<"e", <<u, v>>>> *)
+XCons(r, c) ==
+  IF r.mode # "node" THEN [i \in 1..Len(c) |-> <<"e", c[i]>>]
+  ELSE IF r.cons_kind = "node" THEN [i \in 1..Len(c) |-> <<"n", c[i]>>]
+  ELSE LET RECURSIVE X(_)
+           X(i) == IF i > Len(c) THEN <<>>
+                   ELSE <<<<"n", c[i][1]>>, <<"e", c[i]>>>> \o (IF i = Len(c) THEN <<<<"n", c[i][2]>>>> ELSE <<>>) \o X(i + 1)
+       IN X(1)
+XLen(r, it) == IF it[1] = "n" THEN NodeLenOr(r, it[2], 1)
+               ELSE IF r.mode = "node" THEN EdgeLenOr(r, it[2], 0) ELSE EdgeLenOr(r, it[2], 1)
+XOn(it, p) == IF it[1] = "n" THEN Visits(it[2], p) >= 1 ELSE Count(it[2], p) >= 1
+RouteHonoursByLength(r, c, p) ==
+  LET xc == XCons(r, c)
+      tot == SumOver(1..Len(xc), LAMBDA j : XLen(r, xc[j]))
+      got == SumOver({j \in 1..Len(xc) : XOn(xc[j], p)}, LAMBDA j : XLen(r, xc[j]))
+  IN got * r.covlen[2] >= tot * r.covlen[1]
 
 (* Sum over routes of weight * number of traversals of edge e *)
 Explained(e, routes, weights) ==
